@@ -250,6 +250,61 @@ void h_put(void)
 	VCOVER(L == MAXLEN, "largest buffer");
 	VCOVER(L == 2 && ok, "smallest buffer");
 }
+
+/* ringbuf_putchar = while (!ringbuf_put()) ; verified modularly (P3) with ringbuf_put substituted by its contract (enforced on the
+ * real body by h_put) and the retry loop closed by the loop-cut rule (P7): every entry of the loop body starts by calling
+ * ringbuf_put, so the stub asserts the loop-head invariant and cuts the second iteration.  Anything else the loop body does
+ * runs for real against the shadow atomics in the producer role (so a body that consumes or discards bytes breaks
+ * "the producer stores only writei").  Termination needs consumer progress and is not claimed. */
+static unsigned putchar_iters;
+bool ringbuf_put_contract(ringbuf_t *rb, uint8_t d)
+{
+	VASSERT(rb == &RB, "C05 ringbuf_putchar passes its ring to ringbuf_put");
+	VASSERT(d == put_value, "C05 ringbuf_putchar passes its byte to ringbuf_put unchanged");
+	VASSERT(rb_inv() && my_stores_writei == 0 && my_stores_readi == 0,
+		"C05 ringbuf_putchar: every retry starts with the invariant intact and nothing published or consumed by the producer");
+	if (putchar_iters++ > 0)
+		VASSUME(0); /* loop cut: the invariant was re-established at the back edge */
+	/* contract of ringbuf_put (h_put): fails only when full was seen, otherwise publishes exactly this byte */
+	unsigned r = RB.readi.v, w = RB.writei.v;
+	bool ok = IN.env_flag[0] & 1;
+	if (nxt(w) != r)
+		ok = true; /* not full at the instant of the check: the put succeeds (a spurious failure is not permitted by the contract) */
+	if (ok) {
+		VASSUME(nxt(w) != r);
+		BUF[w] = d;
+		RB.writei.v = nxt(w);
+		my_stores_writei++;
+		if (w_state == W_FUTURE) {
+			if (w_dist == 0) {
+				w_state = W_INRING;
+				w_idx = w;
+				w_val = d;
+			} else {
+				w_dist--;
+			}
+		}
+	}
+	return ok;
+}
+
+void h_putchar(void)
+{
+	arbitrary_ring();
+	put_value = IN.d;
+	uint8_t w_state0 = w_state;
+	unsigned w_dist0 = w_dist;
+	putchar_iters = 0;
+	in_call = true;
+	ringbuf_putchar(&RB, (char)IN.d);
+	in_call = false;
+	VASSERT(rb_inv(), "C05 RG: the invariant holds when ringbuf_putchar returns");
+	VASSERT(my_stores_writei == 1 && my_stores_readi == 0, "C05 ringbuf_putchar returns after publishing exactly its one byte and consuming nothing");
+	if (w_state0 == W_FUTURE && w_dist0 == 0)
+		VASSERT(w_state == W_INRING && w_val == IN.d, "C05 the byte of ringbuf_putchar enters the ring with its value");
+	VCOVER(IN.d >= 0x80, "byte with the top bit set passes through the char parameter");
+	VCOVER(RB.writei.v == 0, "publish wraps to index 0");
+}
 #else
 void h_get(void)
 {
@@ -305,7 +360,7 @@ void h_init(void)
 }
 
 #ifdef ROLE_PRODUCER
-VERIF_ENTRIES(E(h_put) E(h_init))
+VERIF_ENTRIES(E(h_put) E(h_putchar) E(h_init))
 #else
 VERIF_ENTRIES(E(h_get) E(h_empty) E(h_init))
 #endif
